@@ -141,13 +141,13 @@ def run(rep):
                 calls.append('std.%s(%s)' % (name, v))
         elif arity == 2:
             # callbacks of every arity and non-empty containers are always part of the grid
-            vals1 = BOUNDARY if not quick else sorted(set(rng.sample(BOUNDARY, 10) + CALLBACKS + CONTAINERS))
+            vals1 = BOUNDARY if not quick else sorted(set(rng.sample(BOUNDARY, 5) + CALLBACKS + CONTAINERS[:5]))
             for v1 in vals1:
-                vals2 = BOUNDARY if not quick else sorted(set(rng.sample(BOUNDARY, 6) + CALLBACKS + CONTAINERS))
+                vals2 = BOUNDARY if not quick else sorted(set(rng.sample(BOUNDARY, 4) + rng.sample(CALLBACKS, 3) + CONTAINERS[:5]))
                 for v2 in vals2:
                     calls.append('std.%s(%s, %s)' % (name, v1, v2))
         else:
-            n = 150 if quick else 2000
+            n = 100 if quick else 2000
             for _ in range(n):
                 pool = rng.choice([BOUNDARY, SMALL, CALLBACKS + CONTAINERS])
                 calls.append('std.%s(%s)' % (name, ', '.join(rng.choice(pool if rng.random() < 0.7 else SMALL) for _ in range(arity))))
